@@ -24,6 +24,9 @@ abbrev Lit := Nat × Bool
 abbrev Clause := List Lit
 abbrev CNF := List Clause
 
+/-- The assignment `σ` satisfies every clause of `cnf` (the meaning of a CNF). -/
+def Sat (σ : Nat → Bool) (cnf : CNF) : Prop := ∀ cl ∈ cnf, ∃ l ∈ cl, σ l.1 = l.2
+
 /-- One entry of the Python dict `assigns`: name ↦ (val, is_decide, level, clause_id). -/
 structure Asg where
   name : Nat
@@ -261,17 +264,19 @@ def resolveStep (c d : Clause) : Option Clause :=
     if c.all (fun x => x.1 != l.1 || x.2 == l.2) && d.all (fun x => x.1 != l.1 || x.2 == !l.2)
     then some (resolveCanon c d l.1) else none
 
+/-- One step of a replay: resolve the clause so far with clause number `j`. -/
+def replayStep (cnf : CNF) (acc : Option Clause) (j : Nat) : Option Clause :=
+  match acc, cnf[j]? with
+  | some c, some d => resolveStep c d
+  | _, _ => none
+
 /-- Fold `resolution` over the clauses named by a proof. -/
 def replayProof (cnf : CNF) : List Nat → Option Clause
   | [] => none
   | i :: rest =>
     match cnf[i]? with
     | none => none
-    | some c0 =>
-      rest.foldl (fun acc j =>
-        match acc, cnf[j]? with
-        | some c, some d => resolveStep c d
-        | _, _ => none) (some c0)
+    | some c0 => rest.foldl (replayStep cnf) (some c0)
 
 def sameSet (a b : Clause) : Bool := a.all b.contains && b.all a.contains
 
@@ -285,5 +290,99 @@ def checkTrace (cnf : CNF) (n0 : Nat) (proofs : List (Nat × List Nat)) : Bool :
     | some c, some d => sameSet c d
     | _, _ => false) &&
   cnf.getLast? == some []
+
+/-- Rebuild the learned clauses from the proofs alone (what `solve_cnf` returns): entry `(i, p)`
+must carry the next free id and cite existing clauses; its clause is the replay of `p`. -/
+def rebuild : CNF → List (Nat × List Nat) → Option CNF
+  | c, [] => some c
+  | c, (i, p) :: rest =>
+    if i == c.length then
+      match replayProof c p with
+      | some r => rebuild (c ++ [r]) rest
+      | none => none
+    else none
+
+/-- Checker for the pair `('unsatisfiable', proofs)` against the input CNF. -/
+def checkProofs (cnf : CNF) (proofs : List (Nat × List Nat)) : Bool :=
+  match rebuild (cnf.map dedup) proofs with
+  | some c => checkTrace c cnf.length proofs
+  | none => false
+
+end Holpy.C15
+
+-- ---------------------------------------------------------------- Tseitin encoding
+namespace Holpy.C15
+
+/-- Propositional formulas as `prover/tseitin.py` sees them (`is_logical`: ¬ ∧ ∨ ⟶ ⟷; anything
+else is an atom). -/
+inductive Form where
+  | atom (n : Nat)
+  | not (a : Form)
+  | and (a b : Form)
+  | or (a b : Form)
+  | imp (a b : Form)
+  | iff (a b : Form)
+  deriving DecidableEq, Repr
+
+def Form.eval (ρ : Nat → Bool) : Form → Bool
+  | .atom n => ρ n
+  | .not a => !(a.eval ρ)
+  | .and a b => a.eval ρ && b.eval ρ
+  | .or a b => a.eval ρ || b.eval ρ
+  | .imp a b => !(a.eval ρ) || b.eval ρ
+  | .iff a b => a.eval ρ == b.eval ρ
+
+/-- `rec(t)` of `logic_subterms`: the subterms, children first. -/
+def Form.subs : Form → List Form
+  | .atom n => [.atom n]
+  | .not a => a.subs ++ [.not a]
+  | .and a b => a.subs ++ b.subs ++ [.and a b]
+  | .or a b => a.subs ++ b.subs ++ [.or a b]
+  | .imp a b => a.subs ++ b.subs ++ [.imp a b]
+  | .iff a b => a.subs ++ b.subs ++ [.iff a b]
+
+/-- the distinct subterms in first-occurrence order (`set(ts)`; the Python then sorts them with
+`term_ord.fast_compare` — that order is an oracle argument of `tseitinOrd`) -/
+def dedupF (l : List Form) : List Form :=
+  l.foldl (fun acc g => if acc.contains g then acc else acc ++ [g]) []
+
+/-- `subterm_dict[g]` is the variable `x{i+1}` where `i` is the position of `g` in the order. -/
+def varOf (order : List Form) (g : Form) : Nat := order.idxOf g + 1
+
+/-- right-hand sides of `encode_not/conj/disj/imp/eq` as clause lists (checked against the rules
+regenerated from `library/sat.json` in `Props.lean`) -/
+def clausesNot (l r : Nat) : CNF := [[(l, true), (r, true)], [(l, false), (r, false)]]
+def clausesAnd (l r1 r2 : Nat) : CNF :=
+  [[(l, false), (r1, true)], [(l, false), (r2, true)], [(r1, false), (r2, false), (l, true)]]
+def clausesOr (l r1 r2 : Nat) : CNF :=
+  [[(l, false), (r1, true), (r2, true)], [(r1, false), (l, true)], [(r2, false), (l, true)]]
+def clausesImp (l r1 r2 : Nat) : CNF :=
+  [[(l, false), (r1, false), (r2, true)], [(r1, true), (l, true)], [(r2, false), (l, true)]]
+def clausesIff (l r1 r2 : Nat) : CNF :=
+  [[(l, false), (r1, false), (r2, true)], [(l, false), (r1, true), (r2, false)],
+   [(l, true), (r1, false), (r2, false)], [(l, true), (r1, true), (r2, true)]]
+
+/-- the clauses contributed by the equation `x_g ⟷ op(x_a, x_b)` (none for an atom: its equation
+`x_g ⟷ atom` stays a hypothesis of the theorem) -/
+def clausesOf (order : List Form) (g : Form) : CNF :=
+  match g with
+  | .atom _ => []
+  | .not a => clausesNot (varOf order g) (varOf order a)
+  | .and a b => clausesAnd (varOf order g) (varOf order a) (varOf order b)
+  | .or a b => clausesOr (varOf order g) (varOf order a) (varOf order b)
+  | .imp a b => clausesImp (varOf order g) (varOf order a) (varOf order b)
+  | .iff a b => clausesIff (varOf order g) (varOf order a) (varOf order b)
+
+/-- CNF of `tseitin.encode(f)` for a given numbering of the subterms: the clauses of every
+subterm's equation, and the unit clause of the variable standing for `f`. -/
+def tseitinWith (order : List Form) (f : Form) : CNF :=
+  order.flatMap (clausesOf order) ++ [[(varOf order f, true)]]
+
+def tseitin (f : Form) : CNF := tseitinWith (dedupF f.subs) f
+
+/-- Use the recorded subterm order when it lists exactly the subterms of `f`. -/
+def tseitinOrd (f : Form) (o : List Form) : CNF :=
+  let d := dedupF f.subs
+  if o.all d.contains && d.all o.contains then tseitinWith o f else tseitinWith d f
 
 end Holpy.C15
